@@ -10,6 +10,11 @@ let i = int_of_nat
 let rec nodup = function [] -> true | h :: t -> not (L.mem h t) && nodup t
 let idx l = L.mapi (fun k x -> (nat_of_int k, x)) l
 let regs s = s.t_running @ s.t_cancelled @ s.t_ended
+(* failure patterns (independent of PBad.v): does the call of invocation k raise; number of
+   non-failing invocation indices below n *)
+let bad_at (pat : bool list) (k : int) : bool = match L.nth_opt pat k with Some b -> b | None -> false
+let ngood_upto (pat : bool list) (n : int) : int =
+  L.length (L.filter (fun k -> not (bad_at pat k)) (L.init (max n 0) (fun k -> k)))
 
 let running_pc = function PCreated | PUStart | PWaitGate | PUResume | PUCancelled -> true | _ -> false
 let cancel_pc = function PUCancelCb | PWaitCcb -> true | _ -> false
@@ -149,7 +154,7 @@ let checks (s : state) : (string * bool) list =
                     && (match y.m_kind with
                         | MMap _ -> (match L.nth_opt y.m_els (i x.p_el) with
                                      | Some e -> not e.e_bad && x.p_w = e.e_w | None -> false)
-                        | _ -> x.p_w = y.m_w && not y.m_bad && i x.p_el < i y.m_num)) ps;
+                        | _ -> x.p_w = y.m_w && not (bad_at y.m_bad (i x.p_el)) && i x.p_el < i y.m_num)) ps;
     "H_el_distinct", nodup (L.map (fun (_, x) -> (x.p_req, x.p_el)) ps);
     "H_ncreated", L.for_all (fun (m, y) ->
         i y.m_ncreated = L.length (L.filter (fun (_, x) -> x.p_req = m) ps)) ms;
@@ -157,7 +162,7 @@ let checks (s : state) : (string * bool) list =
         match y.m_kind with
         | MMap _ -> i y.m_idx <= L.length y.m_els
                     && i y.m_ncreated + L.length (L.filter (fun e -> e.e_bad) (L.filteri (fun k _ -> k < i y.m_idx) y.m_els)) = i y.m_idx
-        | _ -> i y.m_idx <= i y.m_num && i y.m_ncreated = (if y.m_bad then 0 else i y.m_idx)) ms;
+        | _ -> i y.m_idx <= i y.m_num && i y.m_ncreated = ngood_upto y.m_bad (i y.m_idx)) ms;
     "H_meta_final", L.for_all (fun (_, y) ->
         match y.m_final with
         | None -> true
@@ -187,7 +192,7 @@ let run_wf parse_cfg parse_label lines =
   match lines with
   | [] -> print_endline "OK"
   | c :: rest ->
-      let s = ref (init (parse_cfg c)) in
+      let s = ref (init (parse_cfg c rest)) in
       let bad = ref None in
       L.iteri (fun k line ->
           if !bad = None then begin
